@@ -557,7 +557,7 @@ class TeX(object):
                 cases[-1].append(t)
                 cases[-1].append(next(iterator))
                 continue
-            elif name.startswith('if'):
+            elif name.startswith('if') and self.isConditional(name):
                 cases[-1].append(t)
                 nesting += 1
             elif name == 'fi':
@@ -590,6 +590,26 @@ class TeX(object):
 
         # Push if-selected tokens back into tokenizer
         self.pushTokens(cases[which])
+
+    def isConditional(self, name):
+        """
+        Does `name` currently mean a conditional?
+
+        Only TeX's conditionals (\\ifx, \\ifnum, ...) and the switches
+        created by \\newif open a new nesting level while the branches
+        of a conditional are scanned.  Other macros whose name happens
+        to start with `if` (\\ifthenelse, \\iflanguage, the \\...true and
+        \\...false setters of a switch called \\ififoo, ...) do not.
+        Names that are not defined keep counting, as they always did.
+
+        """
+        from plasTeX.Base.TeX.Primitives import IfCommand
+        for context in reversed(self.ownerDocument.context.contexts):
+            macro = dict.get(context, name)
+            if macro is not None:
+                return isinstance(macro, type) and \
+                       issubclass(macro, (IfCommand, plasTeX.NewIf))
+        return True
 
     def readArgument(self, *args, **kwargs):
         """
